@@ -9,17 +9,36 @@ package prune
 // sorted listing, and every loop terminates. Which slots end up marked is NOT proved (see /verif/DESIGN.md, C12).
 //@ func pruneTables$1
 //@   props C12
+//@   loop-candidates
 //@   requires db != nil
 //@   requires sortedKeys(allBlockKeys) && listsAll(allBlockKeys, blkSet, db) && sortedKeys(allBlockIdxKeys) && listsAll(allBlockIdxKeys, blkIdxSet, db)
-//@   requires len(keepBlock) == len(allBlockKeys) && len(keepBlockIndex) == len(allBlockIdxKeys)
+//@   requires len(keepBlock) == len(allBlockKeys) && len(keepBlockIndex) == len(allBlockIdxKeys) && reg(keepBlock) != reg(keepBlockIndex)
 //@   requires forall(k, 0, len(survivingCommits), len(survivingCommits[k]) == 16)
 //@   modifies tblSet, tblIdxSet, profSet, keepBlock[:], keepBlockIndex[:]
 //@   search 1: j => !sumlt(sid(tableHashes[j]), sid(commit.Table))
+//@   search 2: j => !sumlt(sid(allBlockKeys[j]), sid(blk))
+//@   search 3: j => !sumlt(sid(allBlockIdxKeys[j]), sid(blk))
+//@   callsite DeleteTable [C12]: forall(k, 0, len(survivingCommits), tableOf(sid(survivingCommits[k])) != sid(sum))
+//@   final [C12] err == nil ==> markedIdx(tableHashes, tableFound, allBlockIdxKeys, keepBlockIndex, len(tableHashes))
+//@   final [C12] err == nil ==> markedBlk(tableHashes, tableFound, allBlockKeys, keepBlock, len(tableHashes))
 //@   loop 1 invariant sortedKeys(tableHashes) && listsAll(tableHashes, tblSet, db) && len(tableFound) == len(tableHashes) && tblSet == old(tblSet)
+//@   loop 1 invariant [C12] forall2(k, j, 0 <= k && k < iter && 0 <= j && j < len(tableHashes) && sid(tableHashes[j]) == tableOf(sid(survivingCommits[k])) ==> tableFound[j])
 //@   loop 1 decreases len(survivingCommits) - iter
 //@   loop 2 invariant len(tableFound) == len(tableHashes) && iter <= len(tableFound)
+//@   loop 2 invariant [C12] forall2(k, j, 0 <= k && k < len(survivingCommits) && 0 <= j && j < len(tableHashes) && sid(tableHashes[j]) == tableOf(sid(survivingCommits[k])) ==> tableFound[j])
+//@   loop 2 invariant [C12] markedIdx(tableHashes, tableFound, allBlockIdxKeys, keepBlockIndex, iter)
+//@   loop 2 invariant [C12] markedBlk(tableHashes, tableFound, allBlockKeys, keepBlock, iter)
+//@   loop 2 local
 //@   loop 2 decreases len(tableFound) - iter
 //@   loop 3 invariant ts != nil && forall(i, 0, len(ts.Blocks), len(ts.Blocks[i]) == 16)
+//@   loop 3 let kb0 = contents(keepBlock)
+//@   loop 3 invariant [C12] tableDesc(ts, sid(sum)) && forall(q, 0, len(keepBlock), sel(kb0, off(keepBlock) + q) ==> keepBlock[q])
+//@   loop 3 invariant [C12] forall2(k, q, 0 <= k && k < iter && 0 <= q && q < len(allBlockKeys) && blockOf(sid(sum), k) == sid(allBlockKeys[q]) ==> keepBlock[q])
+//@   loop 3 local
 //@   loop 3 decreases len(ts.Blocks) - iter
 //@   loop 4 invariant ts != nil && forall(i, 0, len(ts.BlockIndices), len(ts.BlockIndices[i]) == 16)
+//@   loop 4 let ki0 = contents(keepBlockIndex)
+//@   loop 4 invariant [C12] tableDesc(ts, sid(sum)) && forall(q, 0, len(keepBlockIndex), sel(ki0, off(keepBlockIndex) + q) ==> keepBlockIndex[q])
+//@   loop 4 invariant [C12] forall2(k, q, 0 <= k && k < iter && 0 <= q && q < len(allBlockIdxKeys) && blkIdxOf(sid(sum), k) == sid(allBlockIdxKeys[q]) ==> keepBlockIndex[q])
+//@   loop 4 local
 //@   loop 4 decreases len(ts.BlockIndices) - iter
